@@ -175,3 +175,86 @@ func cmdVariants(args []string) int {
 	}
 	return 0
 }
+
+// cmdVariantsReal applies every variant to a real scratch worktree (outside /repo and
+// /verif, removed immediately) and reports whether it compiles and passes the
+// repository's own test suite, i.e. whether the mutant is invisible to the suite.
+func cmdVariantsReal(args []string) int {
+	fs := flag.NewFlagSet("variants-real", flag.ExitOnError)
+	prop := fs.String("prop", "", "property id (empty: all)")
+	repo := fs.String("repo", "/repo", "")
+	fs.Parse(args)
+	type res struct{ id, outcome string }
+	var vs []Variant
+	for _, v := range variants {
+		if *prop == "" || v.Prop == *prop {
+			vs = append(vs, v)
+		}
+	}
+	out := make([]res, len(vs))
+	sem := make(chan struct{}, 6)
+	var wg sync.WaitGroup
+	env := append(os.Environ(), "GOFLAGS=-mod=mod", "GOPROXY=off", "GOSUMDB=off", "GOTOOLCHAIN=local")
+	for i, v := range vs {
+		wg.Add(1)
+		go func(i int, v Variant) {
+			defer wg.Done()
+			sem <- struct{}{}
+			defer func() { <-sem }()
+			ov, err := variantOverlay(*repo, v.Prop, v.ID)
+			if err != nil {
+				out[i] = res{v.ID, "skipped: " + err.Error()}
+				return
+			}
+			wt := fmt.Sprintf("/tmp/gbv-vreal-%d-%d", os.Getpid(), i)
+			if b, err := exec.Command("git", "-C", *repo, "worktree", "add", "-q", "--detach", wt, "HEAD").CombinedOutput(); err != nil {
+				out[i] = res{v.ID, "worktree: " + string(b)}
+				return
+			}
+			defer exec.Command("git", "-C", *repo, "worktree", "remove", "--force", wt).Run()
+			for path, content := range ov {
+				rel, _ := filepath.Rel(*repo, path)
+				os.WriteFile(filepath.Join(wt, rel), content, 0o644)
+			}
+			c := exec.Command("go", "build", "./...")
+			c.Dir, c.Env = wt, env
+			if b, err := c.CombinedOutput(); err != nil {
+				out[i] = res{v.ID, "does-not-build: " + firstLine(string(b))}
+				return
+			}
+			c = exec.Command("go", "test", "-vet=off", "-count=1", "./...")
+			c.Dir, c.Env = wt, env
+			if b, err := c.CombinedOutput(); err != nil {
+				out[i] = res{v.ID, "suite-fails: " + firstFail(string(b))}
+				return
+			}
+			out[i] = res{v.ID, "builds+suite-passes"}
+		}(i, v)
+	}
+	wg.Wait()
+	n := 0
+	for _, r := range out {
+		fmt.Printf("%-44s %s\n", r.id, r.outcome)
+		if r.outcome == "builds+suite-passes" {
+			n++
+		}
+	}
+	fmt.Printf("%d of %d variants build and pass the repository's suite\n", n, len(out))
+	return 0
+}
+
+func firstLine(s string) string {
+	if i := strings.Index(s, "\n"); i >= 0 {
+		return s[:i]
+	}
+	return s
+}
+
+func firstFail(s string) string {
+	for _, l := range strings.Split(s, "\n") {
+		if strings.HasPrefix(l, "--- FAIL") {
+			return l
+		}
+	}
+	return firstLine(s)
+}
